@@ -526,15 +526,16 @@ impl TaskEmitter {
         };
         *seq += 1;
 
-        let _ = self.sender.send(event.clone());
-        #[cfg(feature = "verif")]
-        rip_kernel::verif::point_with("task.emit.after_send", || {
-            format!("{} {}", event.session_id, event.seq)
-        });
+        // Record first, publish second, both under the history lock (see session.rs emit_event).
         let mut guard = self.events.lock().await;
         guard.push(event.clone());
         #[cfg(feature = "verif")]
         rip_kernel::verif::point_with("task.emit.after_record", || {
+            format!("{} {}", event.session_id, event.seq)
+        });
+        let _ = self.sender.send(event.clone());
+        #[cfg(feature = "verif")]
+        rip_kernel::verif::point_with("task.emit.after_send", || {
             format!("{} {}", event.session_id, event.seq)
         });
         let _ = self.event_log.append(&event);
